@@ -131,8 +131,11 @@ func runC12(w *core.World, r *core.Report) {
 			case "remove":
 				args := core.CallArgs(c)
 				okTmp := false
-				for _, s := range core.Sources(args[0]) {
+				for _, s := range sourcesThroughClosure(args[0]) {
 					if nc, _, isC := core.ExtractOf(s); isC && core.IsCallTo(nc, "os.(*File).Name") {
+						okTmp = true
+					}
+					if nc, isC := s.(*ssa.Call); isC && core.IsCallTo(nc, "os.(*File).Name") {
 						okTmp = true
 					}
 				}
